@@ -277,6 +277,33 @@ def e2_body(kind, work):
 
         seq = lambda: body(w=1)  # noqa: E731
         return body, seq
+    elif kind == "confidence_ties":
+        # Cross-chunk score ties inside a spectrum: which tied candidate wins is decided by the chunk order, which is
+        # fixed for a fixed chunk size - so the result must still not depend on the thread schedule.
+        from mokapot.confidence import assign_confidence
+
+        df, spec = dataset("B")
+        sc = df["f_key"].values.astype(float).copy()
+        first = {}
+        for i, scan in enumerate(df["ScanNr"]):
+            if scan in first:
+                sc[i] = sc[first[scan]]  # the far-away second PSM of a spectrum ties with the first
+            else:
+                first[scan] = i
+
+        def body(w=3):
+            set_chunks(**dict(DEFAULT_CHUNKS, CONFIDENCE_CHUNK_SIZE=9))
+            try:
+                ds = make_dataset(df, work / "t.pin", features=["f_key", "f2"], spectrum=spec)
+                out = work / "tout"
+                shutil.rmtree(out, ignore_errors=True)
+                out.mkdir()
+                assign_confidence([ds], max_workers=w, scores=[sc], descs=[True], dest_dir=out, prefixes=[None], decoys=True)
+                return tuple((n, (out / n).read_text()) for n in listing(out))
+            finally:
+                set_chunks(**DEFAULT_CHUNKS)
+
+        return body, (lambda: body(w=1))
     else:
         case = {"pin": True, "config": {"CHUNK_SIZE_COLUMNS_FOR_DROP_COLUMNS": 3, "CHUNK_SIZE_ROWS_FOR_DROP_COLUMNS": 4, "workers": 3}}
 
@@ -332,7 +359,10 @@ def e2_plan(ctx, kind, bounds):
         ninv = sched.count_invocations(body)
         info = {"kind": kind, "invocations": ninv, "explored": {}}
         for focus in range(ninv):
-            bound, gran = bounds(kind, focus)
+            bg = bounds(kind, focus, ninv)
+            if bg is None:
+                continue
+            bound, gran = bg
             exe, out, exc = sched.execute(body, [], focus, gran)
             if exe.focus_tasks < 2:
                 continue
@@ -416,16 +446,21 @@ def run(ctx):
     save, ctx.seed = ctx.seed, 0
     ctx.pmap(worker, items)
 
-    def bounds(kind, focus):
+    def bounds(kind, focus, ninv):
         if kind == "pin":
             return (1, "entry") if ctx.quick else (2, "entry")
-        # pipeline: invocations 0,1 parse; 2 fit; 3.. predict; last = confidence chunk writer
+        if kind == "confidence_ties":
+            return (1, "task") if ctx.quick else (2, "task")
+        # pipeline: invocations 0,1 parse; 2 fit; 3.. predict; last = confidence chunk writer.
+        # quick: brew's pools are explored by C02's quick tier (same engine, same tasks); here only the chunk writer
+        if ctx.quick:
+            return (1, "task") if focus == ninv - 1 else None
         if focus == 2:
-            return (0, "task") if ctx.quick else (1, "task")
-        return (1, "task") if ctx.quick else (1, "entry")
+            return (1, "task")
+        return (2, "task") if focus == ninv - 1 else (1, "entry")
 
     infos, e2_items = [], []
-    for kind in ("pin", "pipeline"):
+    for kind in ("pin", "confidence_ties", "pipeline"):
         it, info = e2_plan(ctx, kind, bounds)
         e2_items += it
         infos.append(info)
